@@ -251,3 +251,16 @@ def check(facts, rep, tier, cfg):
         rep.ok("C02.R8", "%s/%s" % (i["rule"], i["key"]), i["where"], i["detail"], nontrivial=False)
     for v in sub.violations:
         rep.bad("C02.R8", v["key"], v["where"], v["msg"])
+    # ---- R9 the codec carries Push payloads unchanged (= C09 rules on the Push arms)
+    rep.rule("C02.R9", "codec: Push frames are encoded / decoded / appended without reordering or losing payload bytes (= C09 rules on Push)")
+    import rules_c09
+    sub = type(rep)(rep.prop, rep.tier, rep.config)
+    rules_c09.check(facts, sub, tier, cfg)
+    rep.paths += sub.paths
+    sel = lambda k: ("Push" in k or "vectored" in k or "append" in k or "push-check" in k)
+    for i in sub.instances:
+        if sel(i["key"]):
+            rep.ok("C02.R9", "%s/%s" % (i["rule"], i["key"]), i["where"], i["detail"], nontrivial=False)
+    for v in sub.violations:
+        if sel(v["key"]):
+            rep.bad("C02.R9", v["key"], v["where"], v["msg"])
